@@ -123,6 +123,38 @@ func Spellings() []Input {
 			}
 		}
 	}
+	// import sections (managed by `templ fmt` when it is given files): unused, missing, aliased, grouped
+	body := "templ T(x string, xs []string, b bool) {\n\t<div>{ fmt.Sprint(x) }{ strings.Join(xs, \",\") }</div>\n}\n"
+	for i, imp := range []string{
+		"import (\n\t\"fmt\"\n\t\"os\"\n\t\"io\"\n\t\"strings\"\n)\n\n",
+		"import (\n\t\"os\"\n\t\"io\"\n)\n\n",
+		"import (\n\t\"os\"\n\t\"io\"\n\t\"net/http\"\n\t\"fmt\"\n)\n\n",
+		"import \"fmt\"\n\n",
+		"import (\n\t\"fmt\"\n)\n\n",
+		"",
+		"import (\n\tf \"fmt\"\n\t\"strings\"\n\n\t\"os\"\n)\n\nvar _ = f.Sprint\n\n",
+		"import \"os\"\nimport \"io\"\nimport \"fmt\"\nimport \"strings\"\n\n",
+		"import (\n\t\"fmt\"\n\t\"strings\"\n)\n\n// a comment between imports and template\n",
+	} {
+		in = append(in, Input{fmt.Sprintf("spelling: import section %d", i), "package p\n\n" + imp + body})
+	}
+	// conditional attributes written on one line and over several lines, alone and among other attributes
+	conds := []string{"if b { class=\"a\" }", "if b { class=\"a\" } else { class=\"b\" }", "if b { title={ x } hidden }", "if b {\n\t\tclass=\"a\"\n\t}", "if b { if x != \"\" { id=\"n\" } }", "if b { { xs... } }"}
+	for _, c := range conds {
+		for _, shape := range []string{"\t<div %s>t</div>", "\t<div id=\"k\" %s title={ x }>t</div>", "\t<input %s/>", "\t<div\n\t\tid=\"k\"\n\t\t%s\n\t>t</div>", "\t<span>a</span><a %s>l</a>"} {
+			if strings.Contains(c, "xs...") {
+				continue
+			}
+			add("conditional attribute "+c+" in "+shape, fmt.Sprintf(shape, c))
+		}
+	}
+	// expressions that hold a comment only, or a comment next to the value
+	for _, e := range []string{"/* c */", "/* c */ x", "x /* c */", "/* a */ x /* b */", "x /* é */"} {
+		add("comment in expression "+e, "\t<div>{ "+e+" }</div>")
+		add("comment in attribute expression "+e, "\t<div title={ "+e+" }>t</div>")
+		add("comment in call argument "+e, "\t@d("+e+")")
+		add("comment in raw go "+e, "\t{{ _ = x "+e+" }}")
+	}
 	exprs := []string{"x", " x ", "x // trailing", "x /* c */", "fmt.Sprintf(\"%s\",\n\t\tx)", "`raw\nstring`", "strings.Join(xs, \", \")", "xs...", "x...", " xs...  "}
 	for _, e := range exprs {
 		add("expression "+e, "\t<div>{ "+e+" }</div>")
@@ -249,7 +281,11 @@ func clip(s string) string {
 	return s
 }
 
-func sameProgram(goA, goB string) string {
+func sameProgram(goA, goB string) string { return sameProgramImports(goA, goB, nil) }
+
+// sameProgramImports: importsOK (if not nil) decides whether the import set of the formatted file's program is
+// acceptable; everything else must be equal.
+func sameProgramImports(goA, goB string, importsOK func(formatted string) bool) string {
 	fset := token.NewFileSet()
 	fa, err := goparser.ParseFile(fset, "a.go", goA, 0)
 	if err != nil {
@@ -261,10 +297,27 @@ func sameProgram(goA, goB string) string {
 	}
 	// the import declarations are compared as a set (grouping and order are gofmt-level layout)
 	ia, ib := takeImports(fa), takeImports(fb)
-	if ia != ib {
+	if importsOK != nil {
+		if !importsOK(ib) {
+			return fmt.Sprintf("imports of the formatted file's program are neither the original's nor what goimports makes of them: %s (original, managed: %s)", ib, ia)
+		}
+	} else if ia != ib {
 		return fmt.Sprintf("imports differ: %s vs %s", ia, ib)
 	}
 	return astEqual(fa, fb, "", false)
+}
+
+// importSet parses the program and returns its import list (see takeImports).
+func importSet(goCode string) []string {
+	f, err := goparser.ParseFile(token.NewFileSet(), "x.go", goCode, goparser.ImportsOnly)
+	if err != nil {
+		return nil
+	}
+	s := takeImports(f)
+	if s == "" {
+		return nil
+	}
+	return strings.Split(s, ", ")
 }
 
 // takeImports removes the import declarations from the file and returns them as a sorted list.
@@ -411,7 +464,7 @@ func Classify(src string, tf parser.TemplateFile, formatted string) string {
 }
 
 // checkOne runs the property's comparison for one input and one way of formatting.
-func checkOne(run *vlib.Run, id string, in Input, via string, Format func(string) (string, error), goA string, tf parser.TemplateFile, changed, notFixed *atomic.Int64) {
+func checkOne(run *vlib.Run, id string, in Input, via string, Format func(string) (string, error), goA string, tf parser.TemplateFile, changed, notFixed *atomic.Int64, importsOK ...func(string) bool) {
 	replay := map[string]any{"input": via + in.Name, "source": in.Src}
 	f1, err := Format(in.Src)
 	if err != nil {
@@ -434,7 +487,11 @@ func checkOne(run *vlib.Run, id string, in Input, via string, Format func(string
 			run.Violation(known("formatted-file-rejected"), fmt.Sprintf("%s%s: the formatted file is no longer accepted: %v\nsource:\n%s\nformatted:\n%s", via, in.Name, err, in.Src, f1), replay)
 			return
 		}
-		if pr := sameProgram(goA, goB); pr != "" {
+		var impOK func(string) bool
+		if len(importsOK) > 0 {
+			impOK = importsOK[0]
+		}
+		if pr := sameProgramImports(goA, goB, impOK); pr != "" {
 			key := "meaning-changed:" + shapeOf(in.Name)
 			// the known layout defects only ever add or drop whitespace; anything else is not attributed to them
 			if onlyStaticWhitespaceDiffers(goA, goB) {
@@ -560,7 +617,36 @@ func filesMode(run *vlib.Run, id string, inputs []Input, acceptedAt []bool, chan
 			if err != nil {
 				return
 			}
+			// import management may apply each of goimports' additions and removals or leave it (it is not goimports);
+			// what the original and goimports agree on must stay, and nothing else may appear
+			orig := importSet(goA)
 			goA = withManagedImports(goA, strings.TrimSuffix(name(i), ".templ")+"_templ.go")
+			managed := importSet(goA)
+			has := func(l []string, x string) bool {
+				for _, y := range l {
+					if x == y {
+						return true
+					}
+				}
+				return false
+			}
+			impOK := func(formatted string) bool {
+				var f []string
+				if formatted != "" {
+					f = strings.Split(formatted, ", ")
+				}
+				for _, x := range orig {
+					if has(managed, x) && !has(f, x) {
+						return false
+					}
+				}
+				for _, x := range f {
+					if !has(orig, x) && !has(managed, x) {
+						return false
+					}
+				}
+				return true
+			}
 			pass := 0
 			checkOne(run, id, in, "`templ fmt <dir>` (file rewritten in place): ", func(string) (string, error) {
 				pass++
@@ -571,7 +657,7 @@ func filesMode(run *vlib.Run, id string, inputs []Input, acceptedAt []bool, chan
 					return g2, nil
 				}
 				return Format(g2)
-			}, goA, tf, changed, notFixed)
+			}, goA, tf, changed, notFixed, impOK)
 		}()
 	}
 	wg.Wait()
